@@ -27,6 +27,35 @@ def _n(e):
     return ast.unparse(e).replace(' ', '')
 
 
+def check_sanitise(rep, ix, m):
+    """Every line is passed through a translation table before it is matched: the table must keep every character of
+    string.printable (white space included: fields may be separated by TABs, which the line patterns accept as \\s) and
+    delete only the rest."""
+    base = m.assigns.get('_ASCII_PRINTABLE_MAP')
+    ok = bool(base) and isinstance(base[-1], ast.DictComp) and _n(base[-1]) == '{k:Noneforkinrange(256)}'
+    rep.ob('R-C14-TABLE', f'{M}:_ASCII_PRINTABLE_MAP', 'the table starts by deleting all 256 byte values', ok, found=_n(base[-1]) if base else 'absent', module=m)
+    ups = [st for st in m.tree.body if isinstance(st, ast.Expr) and isinstance(st.value, ast.Call) and _n(st.value.func) == '_ASCII_PRINTABLE_MAP.update']
+    ok = False
+    found = ''
+    if len(ups) == 1 and len(ups[0].value.args) == 1 and isinstance(ups[0].value.args[0], ast.DictComp):
+        dc = ups[0].value.args[0]
+        found = ast.unparse(dc)
+        g = dc.generators
+        ok = len(g) == 1 and not g[0].ifs and _n(g[0].iter) == 'string.printable' and isinstance(g[0].target, ast.Name) and \
+            _n(dc.key) == f'ord({g[0].target.id})' and _n(dc.value) == g[0].target.id
+    rep.ob('R-C14-TABLE', f'{M}:_ASCII_PRINTABLE_MAP', 'then keeps every character of string.printable unchanged (no filter: TAB and the other white space stay field separators)', ok,
+           found=found or f'{len(ups)} update statement(s)', required='{ord(c): c for c in string.printable}', module=m)
+    muts = [n for n in ast.walk(m.tree) if isinstance(n, (ast.Subscript, ast.Attribute)) and isinstance(getattr(n, 'value', None), ast.Name) and n.value.id == '_ASCII_PRINTABLE_MAP'
+            and not (isinstance(n, ast.Attribute) and n.attr == 'update')]
+    rep.ob('R-C14-TABLE', f'{M}:_ASCII_PRINTABLE_MAP', 'nothing else edits the table', not muts, found=str([ast.unparse(x) for x in muts]), module=m)
+    t = m.assigns.get('ASCII_PRINTABLE_TABLE')
+    rep.ob('R-C14-TABLE', f'{M}:ASCII_PRINTABLE_TABLE', 'the translation table is built from that map', bool(t) and _n(t[-1]) == 'str.maketrans(_ASCII_PRINTABLE_MAP)', module=m)
+    f = ix.get_func(M, '_parse_file')
+    uses = [n for n in ast.walk(f) if isinstance(n, ast.Call) and isinstance(n.func, ast.Attribute) and n.func.attr == 'translate']
+    ok = len(uses) == 1 and [_n(a) for a in uses[0].args] == ['ASCII_PRINTABLE_TABLE']
+    rep.ob('R-C14-TABLE', f'{M}:_parse_file', 'each line is sanitised with that table and no other', ok, node=f, module=m)
+
+
 def run(rep, ix, tier):
     m = ix.module(M)
     imports.check_import_closure(rep, ix, 'R-IMP', [M])
@@ -41,6 +70,7 @@ def run(rep, ix, tier):
     vb = {_n(k): _n(v) for k, v in zip(b[-1].keys, b[-1].values)} if kb else {}
     wantv = {"('UTIM','sec')": '_unit_unix_time_to_datetime_datetime', "('DATE','ddmmyy')": '_unit_ddmmyy_to_datetime_date', "('TIME','hhmmss')": '_unit_hhmmyy_to_datetime_time'}
     rep.ob('R-C14-MAP', f'{M}:NAME_VALUE_CONVERSION_MAP', 'each date/time column uses its own converter', vb == wantv, found=str(vb), module=m)
+    check_sanitise(rep, ix, m)
     f = ix.get_func(M, '_ret_conversion_function')
     rets = sorted(_n(r.value) for r in common.returns_of(f))
     c = f.args.args[0].arg
@@ -151,6 +181,7 @@ def run(rep, ix, tier):
     ok = 'time.gmtime(' in src or 'utcfromtimestamp(' in src or 'tz=datetime.timezone.utc' in src
     rep.ob('R-C14-UTC', f'{M}:_unit_unix_time_to_datetime_datetime', 'Unix time is converted with a UTC function', ok, node=u, module=m)
     rep.floor('R-C14-MAP', 5)
+    rep.floor('R-C14-TABLE', 5)
     rep.floor('R-C14-REGEX', 2)
     rep.floor('R-C14-REJECT', 12)
     rep.floor('R-C14-ORDER', 6)
